@@ -606,7 +606,9 @@ func c25Classify(c *c25Case, d c25Diff) (sig, divergence string) {
 		empty := false
 		for _, e := range c.Exts {
 			if seen[e.Key] {
-				return "roundtrip:extensions:duplicate-key", ""
+				// an extension list that repeats a key has no defined meaning (RFC 8839 gives each extension
+				// attribute once); outside "every candidate pion can represent" — bookkept, not judged
+				return "", "duplicate_extension_key_last_wins"
 			}
 			seen[e.Key] = true
 			empty = empty || e.Value == ""
